@@ -349,6 +349,7 @@ func runC03(r *Result, d *drv.Driver, tier string, seed int64, replay string) {
 		"(tag/type/length at boundary values incl. 2^31, 2^32-1, truncation, item deletion/duplication/reordering/splicing, booleans, padding, bit flips, random bytes); " +
 		"each input decoded unbuffered from memory (exact consumption counted) and under one random delivery discipline (one byte at a time, random chunks with zero-length reads, data-with-EOF, injected I/O error; buffered or io.ByteScanner). " +
 		"distinct = distinct (type, bytes); non-trivial = longer than a header"
+	c03PersistentFaults(r)
 	for round := 0; round < rounds; round++ {
 		g := gen.New(seed*7919 + int64(round))
 		g.WF = true
